@@ -195,10 +195,10 @@ def run(ctx):
                               'tag': {'example': name}}})
     # failing simulations
     fails = []
-    for i in range(ctx.pick(12, 96)):
+    for i in range(ctx.pick(14, 98)):
         cell = cells[(i * 7) % len(cells)]
         base = gen.synth_case(rng, cell, addons=False, overpressure=False, sdac=False)
-        kind = i % 6
+        kind = i % 7
         c = [list(kv) for kv in base]
         if kind == 0:
             gen.cset(c, 'Reservoir Depth', 50)
@@ -208,6 +208,16 @@ def run(ctx):
             gen.cset(c, 'Plant Lifetime', 0)
         elif kind == 3:
             gen.cset(c, 'Utilization Factor', 1.5)
+        elif kind == 6:
+            # accepted by the reader, fails in the calculation stage: a cold, shallow resource under an electricity end-use
+            # ("Electricity production calculated as negative")
+            gen.cset(c, 'End-Use Option', 1)
+            gen.cset(c, 'Power Plant Type', 1)
+            gen.cset(c, 'Number of Segments', 1)
+            gen.cset(c, 'Gradient 1', 20)
+            gen.cset(c, 'Reservoir Depth', 0.2)
+            gen.cset(c, 'Maximum Temperature', 400)
+            gen.cset(c, 'Injection Temperature', 70)
         elif kind == 4:
             # add-ons with two construction years: the add-on report writer aborts
             c += gen.addon_block(rng, n=1)
@@ -221,10 +231,22 @@ def run(ctx):
             c += gen.overpressure_block(rng, gen.cget(c, 'Reservoir Depth'))
         fails.append((gen.render(c), {'cell': list(cell), 'failure': ['depth-out-of-range', 'non-member-option', 'lifetime-zero',
                                                                  'utilization-above-one', 'add-ons-with-two-construction-years',
-                                                                 'report-writer-fails-in-overpressure-table'][kind]}))
+                                                                 'report-writer-fails-in-overpressure-table',
+                                                                 'calculation-stage-failure'][kind]}))
     for i, (t, tag) in enumerate(fails):
+        # the synthetic calculation-stage candidates do not always fail (a plant may report zero instead of negative output):
+        # for them the direct pipeline's outcome decides which clauses apply
         jobs.append({'fn': 'gxv.props.c20:entry_job', 'timeout': 900,
-                     'args': {'text': t, 'mode': MODES[i % 3], 'expect_fail': True, 'tag': tag}})
+                     'args': {'text': t, 'mode': MODES[i % 3], 'expect_fail': tag['failure'] != 'calculation-stage-failure', 'tag': tag}})
+    # deterministic calculation-stage failures: a shipped case made cold and shallow ("Electricity production calculated as
+    # negative" is raised by the surface plant after the reader has accepted everything)
+    for j, ex in enumerate(['example4', 'example1', 'example4']):
+        case, raw = gen.example_case(ex)
+        gen.cset(case, 'Reservoir Depth', 0.2)
+        gen.cset(case, 'Gradient 1', 20)
+        jobs.append({'fn': 'gxv.props.c20:entry_job', 'timeout': 900,
+                     'args': {'text': gen.render(case, raw), 'mode': ['relative-subdir', 'none', 'absolute'][j], 'expect_fail': True,
+                              'tag': {'example': ex, 'failure': 'calculation-stage-failure'}}})
     for mode in MODES[:3]:
         jobs.append({'fn': 'gxv.props.c20:entry_job', 'timeout': 900,
                      'args': {'text': None, 'mode': mode, 'expect_fail': True, 'tag': {'failure': 'missing-input-file'}}})
@@ -242,8 +264,8 @@ def run(ctx):
                          'cli-equals-direct-pipeline': 25, 'cli-equals-client': 25, 'failure-exits-nonzero': 10,
                          'failure-writes-no-report': 10, 'mc-embedded-run-equals-cli': 4})
     ctx.rule = ('inputs from the fast configuration families and shipped examples (succeeding) and failing inputs (out-of-range '
-                'value, non-member option, zero lifetime, missing input file, nested non-existent output directory, add-ons '
-                'with two construction years) x output argument {none, relative, relative with sub-directory, absolute, nested '
+                'value, non-member option, zero lifetime, missing input file, nested non-existent output directory, a calculation-stage '
+                'failure, add-ons with two construction years, a report-writer failure) x output argument {none, relative, relative with sub-directory, absolute, nested '
                 'missing directory}; each case runs `python -m geophires_x` in a subprocess from a scratch starting directory '
                 '(hooks off) and is compared with the direct pipeline and the client run in-process, every fourth one also '
                 'with a one-iteration Monte-Carlo run on the same base; distinct = (input text, output mode); every case is '
